@@ -1,2 +1,89 @@
-From Coq Require Import List ZArith Bool.
-From GV Require Import Base.Enc Model.GThread.
+(* C13 - The threaded worker accounts for every connection and never stops serving.
+   Only statements, each closed by [exact]; model in Model/GThread.v, proofs in Proof/GThreadProofs.v.
+   [reachable g s] = some sequence of atomic blocks of the main thread, the pool threads and the environment,
+   in ANY interleaving, leads from the initial state to s. *)
+From Coq Require Import List ZArith Bool Lia.
+From GV Require Import Base.Enc Model.GThread Proof.GThreadProofs.
+Import ListNotations.
+Local Open Scope Z_scope.
+
+(* ---- accounting: nr_conns is exactly the number of connections in New / Keep / Handling states, and a socket has
+        been closed (once) exactly for the connections in state Closed ---- *)
+Theorem C13_accounting : forall g s, reachable g s ->
+  nr_conns s = n_counted s
+  /\ (forall c x, getc s c = Some x -> closes x = match st x with CClosed => 1%nat | _ => 0%nat end).
+Proof. exact accounting. Qed.
+Print Assumptions C13_accounting.
+
+Theorem C13_no_double_close : forall g s c x, reachable g s -> getc s c = Some x -> (closes x <= 1)%nat.
+Proof. exact no_double_close. Qed.
+Print Assumptions C13_no_double_close.
+
+Theorem C13_closed_absorbing : forall g s l s' c x, reachable g s -> step g s l = Some s' ->
+  getc s c = Some x -> st x = CClosed -> exists x', getc s' c = Some x' /\ st x' = CClosed.
+Proof. exact closed_absorbing. Qed.
+Print Assumptions C13_closed_absorbing.
+
+(* ---- never closed while a request on it is being handled ---- *)
+Theorem C13_never_closed_while_handled : forall g s c x, reachable g s -> getc s c = Some x ->
+  st x <> CClosed -> closes x = 0%nat.
+Proof. exact never_closed_while_handled. Qed.
+Print Assumptions C13_never_closed_while_handled.
+
+(* a step that closes c finds it in: handle returned / finish_request at its lock after the loop ended /
+   queued and cancelled / keep-alive expired and popped by the reaper - never Running, never a live New or Keep *)
+Theorem C13_close_requires : forall g s l s' c x x', reachable g s -> step g s l = Some s' ->
+  (forall evs, l <> LMain evs true) ->
+  getc s c = Some x -> getc s' c = Some x' -> st x <> CClosed -> st x' = CClosed ->
+  (exists ka, st x = CDone ka /\ l = LFinish c) \/ (st x = CTimed /\ l = LFinLock c)
+  \/ (st x = CQueued /\ l = LCancel c) \/ (st x = CExpiring /\ exists now, mpc s = MUnreg now c).
+Proof. exact close_requires. Qed.
+Print Assumptions C13_close_requires.
+
+(* ---- the number of open connections never exceeds the configured maximum ---- *)
+Theorem C13_bounded : forall g s, 1 <= wconn g -> nlisten g = 1%nat -> reachable g s -> nr_conns s <= wconn g.
+Proof. exact bounded. Qed.
+Print Assumptions C13_bounded.
+
+Theorem C13_bounded_n_listeners : forall g s, cfg_ok g -> reachable g s ->
+  nr_conns s <= wconn g + Z.of_nat (nlisten g) - 1.
+Proof. exact bounded_general. Qed.
+Print Assumptions C13_bounded_n_listeners.
+
+(* ---- idle keep-alive connections are not closed before the keep-alive time has passed ---- *)
+Theorem C13_keepalive_not_before : forall g s l s' c x x', reachable g s -> step g s l = Some s' ->
+  (forall evs, l <> LMain evs true) ->
+  getc s c = Some x -> getc s' c = Some x' -> st x = CKeep -> st x' = CExpiring ->
+  tmo x <= clock s /\ tmo x = since x + keepalive g.
+Proof. exact keepalive_not_before. Qed.
+Print Assumptions C13_keepalive_not_before.
+
+(* ---- D20 (genuine defect, known finding gthread-capacity-stall): at nr_conns >= worker_connections the loop
+        only waits for futures; when the slots are held by idle New connections nothing - no request, no client
+        leaving, no passage of time - is ever noticed again ---- *)
+Theorem C13_capacity_stall_forever : forall g ls s s', stalled g s -> Forall benign ls -> run g s ls = Some s' ->
+  stalled g s' /\ same_service s s' /\ nr_conns s' = nr_conns s.
+Proof. exact capacity_stall_forever. Qed.
+Print Assumptions C13_capacity_stall_forever.
+
+Theorem C13_served_if_thread_free_refuted : exists g s c x,
+  reachable g s /\ getc s c = Some x /\ st x = CNew /\ In c (regd s) /\ sockbuf x = [KA] /\ n_running s < threads g
+  /\ forall ls s', Forall benign ls -> run g s ls = Some s' ->
+       exists x', getc s' c = Some x' /\ resp x' = 0%nat /\ st x' = CNew.
+Proof. exact served_if_thread_free_refuted. Qed.
+Print Assumptions C13_served_if_thread_free_refuted.
+
+Theorem C13_returns_to_zero_refuted : exists g s,
+  reachable g s /\ (forall c x, getc s c = Some x -> eof x = true) /\ n_running s = 0
+  /\ forall ls s', Forall benign ls -> run g s ls = Some s' -> nr_conns s' = 1.
+Proof. exact returns_to_zero_refuted. Qed.
+Print Assumptions C13_returns_to_zero_refuted.
+
+(* ---- D21 (genuine defect, known finding gthread-pipelined-request-dropped): a fair run - every select reports
+        everything readable, a thread is free throughout - in which the second of two pipelined requests is never
+        answered and is dropped with the connection at keep-alive expiry ---- *)
+Theorem C13_pipelined_request_dropped : exists g ls s x,
+  runr g (init g) ls = Some s /\ getc s 0%nat = Some x
+  /\ st x = CClosed /\ resp x = 1%nat /\ pbuf x = [KA] /\ eof x = false.
+Proof. exact pipelined_request_dropped. Qed.
+Print Assumptions C13_pipelined_request_dropped.
